@@ -1,6 +1,6 @@
 """C15 — breeding-value matrices round-trip through scaling: correspondence between Model/C15_Bv.v and
 DenseBreedingValueMatrix / DenseEstimatedBreedingValueMatrix / DenseGenomicEstimatedBreedingValueMatrix
-(from_numpy, unscale, the eight statistics, every taxa-axis operation incl. the inherited in-place ones and
+(from_numpy, unscale, the eight statistics, every taxa-axis operation incl. the in-place ones and
 concat_taxa) and DenseScaledMatrix (transform/untransform/rescale/unscale), plus the independent predicate."""
 import copy, math
 from fractions import Fraction
@@ -14,9 +14,10 @@ SHARD = 25
 LEVEL_TEXT = ("Coq theorems over an exact-rational (missing value = None) model of from_numpy/unscale/statistics and of every taxa-axis "
               "operation of the breeding-value matrices: unscale(from_numpy raw) = raw entrywise with None preserved and isolated, for every "
               "location/scale accepted by the run-time check; max/min/range/arg-extrema/mean/variance on the original scale equal those of the raw "
-              "column (variance 0 for constant traits); the stored matrix is centred with unit variance; every history of "
-              "select/delete/insert/adjoin (+ in-place remove) yields exactly the list-level operation on raw rows and labels; the inherited "
-              "concat_taxa/append_taxa/incorp_taxa are shown NOT to preserve raw values (refuted by witness, proved under the guard location=0, scale=1 / equal parameters); "
+              "column (NaN as soon as a value is missing; variance 0 for constant traits); the stored matrix is centred with unit variance; every history of "
+              "select/delete/insert/adjoin, of the in-place remove/append/incorp and of concat_taxa yields exactly the list-level operation on raw rows and "
+              "labels, and location/scale are recomputed at every step (the former inherited in-place/concat code and the former tmean are kept as "
+              "old_step/old_c_mean with their refutations as regression witnesses); "
               "the float round trip rnd(rnd(s*rnd(rnd(1/s)*rnd(x-l)))+l) is within 4u|x-l|+u|x|+O(u^2) of x in the standard model of floating-point "
               "arithmetic, instantiated for 53-bit round-to-nearest (Flocq FLX); DenseScaledMatrix: untransform inverts transform, unscale/rescale in place keep scale*mat+location; "
               "the model is tied to the code by evaluating it inside Coq against every intermediate state of generated histories")
@@ -25,9 +26,11 @@ LEVEL_NOTE = ("trusted: Coq kernel + vm_compute; float rounding is not modelled:
               "2^-30(1+|x|) of the exact rational, NaN patterns, labels, arg-extrema (up to exact ties after the first step) and error/no-error exactly; "
               "theorems are about the Gallina model, the tie to the code is differential on generated inputs")
 TECHNIQUE = "Coq proof over an executable exact-rational model; in-Coq vm_compute correspondence with the implementation on operation histories"
-RULE = ("case = (class B/E/G, raw matrix with optional taxa/taxa_grp labels, list of taxa-axis operations with their operands) or (DenseScaledMatrix, "
+RULE = ("case = (class B/E/G, raw matrix with optional taxa/taxa_grp labels — built by from_numpy, or (12%) by the constructor from stored values with an "
+        "arbitrary location / positive scale —, list of taxa-axis operations with their operands) or (DenseScaledMatrix, "
         "matrix, location, scale, op list); one PRNG; n in 0..20 (1,2 frequent), t in 1..4; per-trait column kinds: dyadic grid k/2^6, constant, few-valued "
-        "(ties), offset +-2^20 with step 8, NaN-sprinkled, all-NaN; operands as ndarray or as a second matrix of any of the three classes; "
+        "(ties), offset +-2^20 with step 8, NaN-sprinkled, all-NaN; operations select/delete/insert/adjoin (copies), remove/append/incorp (in place), "
+        "concat_taxa (self at any position among 1-2 other matrices); operands as ndarray or as a second matrix of any of the three classes; "
         "non-trivial = at least 2 operations of which one changes the taxa list of a matrix with >= 2 distinct raw rows; distinct by SHA-256 of the case")
 TRUSTED = ["the rounding-error theorem is about an abstract rounding operator with relative error u (Flocq FLX instance: no overflow/underflow); that numpy's float64 "
            "operations are such roundings is not proved, the predicate checks the bound (with slack 5u(|x-l|+|x|)) on every first-step entry",
@@ -38,7 +41,7 @@ ASSUMPTIONS = ["raw values on dyadic grids (|x| <= 64 step 2^-6, or +-2^20 offse
                "ntrait >= 1; insert/incorp with an index list use as many value rows as indices (numpy broadcasting of a single row not generated)",
                "numpy.insert does not validate an index *list* (entries below -n wrap around in the enlarged array): such a step is not modelled, "
                "the history is compared up to it and the predicate resynchronises on the implementation's state",
-               "a zero scale (1.0/0.0 = inf) is outside the model: from_numpy never produces it"]
+               "a zero scale (1.0/0.0 = inf) is outside the model: from_numpy never produces it, and matrices built directly by the constructor are generated with positive scales only"]
 
 CLS = {"B": ("pybrops.popgen.bvmat.DenseBreedingValueMatrix", "DenseBreedingValueMatrix"),
        "E": ("pybrops.popgen.bvmat.DenseEstimatedBreedingValueMatrix", "DenseEstimatedBreedingValueMatrix"),
@@ -124,7 +127,7 @@ def _index(rng, n, allow_end, bad=0.04):
     if rng.random() < 0.3 and i - n >= -n and (i < n): i = i - n
     return i
 
-def _gen_bv(rng, tier, defect_ops):
+def _gen_bv(rng, tier, more_inplace):
     ids = _Ids()
     cls = rng.choice(["B", "B", "E", "G"])
     t = rng.choice([1, 1, 2, 2, 3, 4])
@@ -135,13 +138,15 @@ def _gen_bv(rng, tier, defect_ops):
     raw = _rows(rng, n, kinds, nanrate)
     taxa, grp = _labels(rng, ids, n, has_taxa, has_grp)
     case = {"kind": "bv", "cls": cls, "t": t, "raw": raw, "taxa": taxa, "grp": grp, "trait": rng.random() < 0.5, "ops": []}
+    if rng.random() < 0.12:
+        # built by the constructor from stored values with an arbitrary location / positive scale (not standardised):
+        # "raw" holds the stored matrix, the matrix stands for scale*raw+location
+        case["direct"] = {"loc": [rng.randint(-64, 64) / 4.0 for _ in range(t)], "sc": [rng.choice([0.25, 0.5, 1.0, 2.0, 4.0, 1.5, 3.0]) for _ in range(t)]}
     nops = rng.choice([0, 1, 2, 2, 3, 3, 4, 5]) if tier == "quick" else rng.choice([0, 1, 2, 3, 4, 5, 6])
-    used_defect = False
     for _ in range(nops):
-        names = ["select", "select", "delete", "delete", "insert", "insert", "adjoin", "adjoin"]
-        if defect_ops and not used_defect: names += ["append", "incorp", "remove", "concat"] * 3
+        names = ["select", "select", "delete", "delete", "insert", "insert", "adjoin", "adjoin", "append", "incorp", "remove", "concat"]
+        if more_inplace: names += ["append", "incorp", "remove", "concat"] * 2
         name = rng.choice(names)
-        if name in ("append", "incorp", "remove", "concat"): used_defect = True
         if name == "select":
             m = rng.choice([0, 1, 1, 2, 3, n, n + 1]) if n else rng.choice([0, 0, 1])
             ix = [_index(rng, n, False, bad=0.02 if n else 1.0) for _ in range(m)]
@@ -178,7 +183,7 @@ def _gen_bv(rng, tier, defect_ops):
                 ot, og = _labels(rng, ids, k, has_taxa if rng.random() < 0.85 else not has_taxa, has_grp if rng.random() < 0.92 else not has_grp)
                 others.append({"cls": cls if rng.random() < 0.85 else rng.choice(["B", "E", "G"]), "raw": _rows(rng, k, kinds, nanrate, True), "taxa": ot, "grp": og})
             op = {"op": "concat", "others": others, "self_pos": rng.randint(0, len(others))}
-            if cls == "B": n += sum(len(o["raw"]) for o in others)      # the subclasses raise
+            if all((o["cls"], cls) in SUBCLASS for o in others): n += sum(len(o["raw"]) for o in others)
         case["ops"].append(op)
     return case
 
@@ -225,9 +230,23 @@ def gen_cases(rng, tier):
         cases.append({"kind": "bv", "cls": cls, "t": 2, "raw": [[1048576.0, -3.0]], "taxa": None, "grp": None, "trait": False,
                       "ops": [{"op": "adjoin", "vals": [[1048584.0, -3.0], [1048568.0, None]], "as": "nd", "vtaxa": None, "vgrp": None, "ataxa": None, "agrp": None},
                               {"op": "delete", "obj": 0}, {"op": "select", "ix": []}]})
+        # in-place operations and concat_taxa in every class: appended / incorporated / concatenated values on another scale, then remove
+        cases.append({"kind": "bv", "cls": cls, "t": 2, "raw": [[1.0, 5.0], [3.0, 5.0]], "taxa": [0, 1], "grp": [0, 1], "trait": True,
+                      "ops": [{"op": "append", "vals": [[10.0, 5.0], [30.0, None]], "as": "nd", "vtaxa": None, "vgrp": None, "ataxa": [2, 3], "agrp": [2, 2]},
+                              {"op": "incorp", "obj": 1, "vals": [[100.0, 6.0]], "as": cls, "vtaxa": [4], "vgrp": [1], "ataxa": None, "agrp": None},
+                              {"op": "remove", "obj": [0, 3]},
+                              {"op": "concat", "self_pos": 1, "others": [{"cls": cls, "raw": [[-7.0, 5.0], [9.0, 5.0]], "taxa": [5, 6], "grp": [3, 3]},
+                                                                          {"cls": cls, "raw": [[1000.0, 8.0]], "taxa": None, "grp": [0]}]},
+                              {"op": "remove", "obj": -1}]})
+        cases.append({"kind": "bv", "cls": cls, "t": 2, "raw": [[1.0, 0.5], [2.0, 0.5], [4.0, None]], "taxa": None, "grp": None, "trait": False,
+                      "direct": {"loc": [10.0, -3.0], "sc": [2.0, 1.5]},
+                      "ops": [{"op": "remove", "obj": 0}, {"op": "append", "vals": [[7.0, 1.0]], "as": "nd", "vtaxa": None, "vgrp": None, "ataxa": None, "agrp": None}]})
+        cases.append({"kind": "bv", "cls": cls, "t": 1, "raw": [], "taxa": None, "grp": None, "trait": False,
+                      "ops": [{"op": "append", "vals": [[10.0], [30.0]], "as": cls, "vtaxa": None, "vgrp": None, "ataxa": None, "agrp": None},
+                              {"op": "concat", "self_pos": 0, "others": [{"cls": cls, "raw": [[1.0], [3.0]], "taxa": None, "grp": None}]}]})
     for i in range(N):
         if i % 9 == 8: cases.append(_gen_scaled(rng, tier))
-        else: cases.append(_gen_bv(rng, tier, defect_ops=(i % 4 == 3)))
+        else: cases.append(_gen_bv(rng, tier, more_inplace=(i % 4 == 3)))
     return cases
 
 # ------------------------------------------------------------------ implementation driver
@@ -274,6 +293,13 @@ def _snapshot(b, trait):
         try: st[k] = [int(x) for x in getattr(b, k)()]
         except Exception as e: st[k] = {"exc": type(e).__name__}
     s["stats"] = st
+    shared = []
+    for k in STATS:
+        try:
+            r_ = getattr(b, k)(unscale=True)
+            if any(numpy.shares_memory(r_, x) for x in (b.mat, b.location, b.scale)): shared.append(k)
+        except Exception: pass
+    s["stat_shared"] = shared
     s["unchanged"] = bool(numpy.array_equal(b.mat, m0, equal_nan=True) and numpy.array_equal(b.location, l0, equal_nan=True)
                           and numpy.array_equal(b.scale, s0, equal_nan=True))
     s["cls"] = type(b).__name__
@@ -296,10 +322,18 @@ def _run_bv(case):
     t = case["t"]
     C = _cls(case["cls"])
     trait = numpy.array(["y%d" % j for j in range(t)], dtype=object) if case["trait"] else None
-    b = C.from_numpy(_arr(case["raw"], t), taxa=_tx(case["taxa"]), taxa_grp=_gp(case["grp"]), trait=trait)
+    if case.get("direct"):
+        b = C(mat=_arr(case["raw"], t), location=numpy.array(case["direct"]["loc"], dtype=float), scale=numpy.array(case["direct"]["sc"], dtype=float),
+              taxa=_tx(case["taxa"]), taxa_grp=_gp(case["grp"]), trait=trait)
+    else:
+        b = C.from_numpy(_arr(case["raw"], t), taxa=_tx(case["taxa"]), taxa_grp=_gp(case["grp"]), trait=trait)
     steps = [_snapshot(b, case["trait"])]
+    def same(x, y):
+        if x is None or y is None: return x is None and y is None
+        return x.shape == y.shape and bool(numpy.array_equal(x, y, equal_nan=True) if x.dtype.kind == "f" else all(p == q for p, q in zip(x, y)))
     for op in case["ops"]:
         rec = {}
+        nb = None
         try:
             nm = op["op"]
             if nm == "select": nb = b.select_taxa(_ix(op["ix"]))
@@ -327,6 +361,9 @@ def _run_bv(case):
             b = nb
         except Exception as e:
             rec["exc"] = type(e).__name__; rec["msg"] = str(e)[:160]
+            if op["op"] in INPLACE and nb is not None:
+                # a failing in-place operation must leave the matrix (a deep copy of the current one) as it was
+                rec["failed_unchanged"] = all(same(getattr(nb, a), getattr(b, a)) for a in ("mat", "location", "scale", "taxa", "taxa_grp"))
         steps.append(rec)
     return {"steps": steps}
 
@@ -473,7 +510,7 @@ def _np_stats(colvals):
     var = sum((v - mean) ** 2 for v in colvals) / n
     return {"max": max(colvals), "min": min(colvals), "mean": mean, "range": max(colvals) - min(colvals), "var": var}
 
-def _check_state(tag, exp, snap, t, first, strict_nan_mean, bad):
+def _check_state(tag, exp, snap, t, first, bad, standardised=True):
     def B(msg): bad.append("%s: %s" % (tag, msg))
     n = len(exp.rows)
     if snap["shape"] != [n, t]:
@@ -487,6 +524,7 @@ def _check_state(tag, exp, snap, t, first, strict_nan_mean, bad):
     if len(loc) != t or len(sc) != t: B("location/scale length"); return
     if not snap["unchanged"]: B("a statistic or unscale() modified the matrix, location or scale")
     if not snap["unscale_fresh"]: B("unscale() returns memory shared with the stored matrix")
+    if snap.get("stat_shared"): B("%s(unscale=True) returns memory shared with the matrix, location or scale" % "/".join(snap["stat_shared"]))
     if not snap["trait_ok"]: B("trait labels lost or changed")
     st = snap["stats"]
     for j in range(t):
@@ -504,10 +542,9 @@ def _check_state(tag, exp, snap, t, first, strict_nan_mean, bad):
                 if col[i] is not None and ucol[i] is not None and abs(ucol[i] - col[i]) > Fraction(5, 2 ** 53) * (abs(col[i] - loc[j]) + abs(col[i])):
                     B("trait %d taxon %d: unscale() = %r differs from the raw value %r by more than rounding error" % (j, i, float(ucol[i]), float(col[i]))); break
         vals = [v for v in col if v is not None]
-        stale = tag.split("op=")[1].split(":")[0].split(" ")[0] in INPLACE if "op=" in tag else False
-        if not vals:
-            if loc[j] is not None or sc[j] is not None:
-                if n == 0 or not stale: B("trait %d: no observed value but location/scale are not NaN" % j)
+        if not standardised: pass                   # built by the constructor with given parameters: nothing to say about location / scale
+        elif not vals:
+            if loc[j] is not None or sc[j] is not None: B("trait %d: no observed value but location/scale are not NaN" % j)
         else:
             mean = sum(vals) / len(vals)
             var = sum((v - mean) ** 2 for v in vals) / len(vals)
@@ -552,9 +589,8 @@ def _check_state(tag, exp, snap, t, first, strict_nan_mean, bad):
         if raw is None:
             for k in ("tmax", "tmin", "trange", "tstd", "tvar"):
                 if g[(k, 1)] is not None: B("trait %d: %s(unscale=True) is %s but the raw trait has a missing value (numpy summary is NaN)" % (j, k, float(g[(k, 1)])))
-            if strict_nan_mean and g[("tmean", 1)] is not None:
-                B("[tmean-nan] trait %d: tmean(unscale=True) = %s ignores the missing value while tmean(unscale=False) and every other summary are NaN" % (j, float(g[("tmean", 1)])))
-            elif vals and not _close(g[("tmean", 1)], sum(vals) / len(vals)): B("trait %d: tmean(unscale=True) is not the mean of the observed raw values" % j)
+            if g[("tmean", 1)] is not None:
+                B("trait %d: tmean(unscale=True) = %s ignores the missing value while tmean(unscale=False) and every other summary are NaN" % (j, float(g[("tmean", 1)])))
             fn = next(i for i, v in enumerate(col) if v is None)
             if st["targmax"][j] != fn or st["targmin"][j] != fn: B("trait %d: arg-extrema of a trait with a missing value should point at the first missing entry" % j)
         else:
@@ -590,11 +626,16 @@ def _pred_bv(case, out):
     bad = []
     t = case["t"]; cls = case["cls"]
     steps = out["steps"]
-    exp = _Exp([[_F(v) for v in r] for r in case["raw"]], case["taxa"], case["grp"])
-    strict = bool(case.get("strict_nan_mean"))
-    if "exc" in steps[0]: return ["from_numpy raised %s" % steps[0]["exc"]]
+    d = case.get("direct")
+    if d:       # the matrix stands for scale*mat+location
+        exp = _Exp([[None if v is None else Fraction(d["sc"][j]) * Fraction(v) + Fraction(d["loc"][j]) for j, v in enumerate(r)] for r in case["raw"]], case["taxa"], case["grp"])
+    else:
+        exp = _Exp([[_F(v) for v in r] for r in case["raw"]], case["taxa"], case["grp"])
+    if "exc" in steps[0]: return ["%s raised %s" % ("constructor" if d else "from_numpy", steps[0]["exc"])]
     if steps[0]["cls"] != CLS[cls][1]: bad.append("step 0 op=from_numpy: result class %s" % steps[0]["cls"])
-    _check_state("step 0 op=from_numpy", exp, steps[0], t, True, strict, bad)
+    if d and (steps[0]["loc"] != [_hx(x) for x in d["loc"]] or steps[0]["scale"] != [_hx(x) for x in d["sc"]] or steps[0]["mat"] != [[_hx(float("nan") if v is None else v) for v in r] for r in case["raw"]]):
+        bad.append("step 0 op=constructor: matrix, location or scale not stored as given")
+    _check_state("step 0 op=%s" % ("constructor" if d else "from_numpy"), exp, steps[0], t, True, bad, standardised=not d)
     for k, op in enumerate(case["ops"], 1):
         snap = steps[k]
         tag = "step %d op=%s" % (k, op["op"])
@@ -606,7 +647,9 @@ def _pred_bv(case, out):
             continue
         if e[0] == "err":
             if "exc" not in snap: bad.append("%s: invalid index accepted" % tag)
+            elif snap.get("failed_unchanged") is False: bad.append("%s: the failing in-place operation changed the matrix" % tag)
             continue
+        if "exc" in snap and snap.get("failed_unchanged") is False: bad.append("%s: the failing in-place operation changed the matrix" % tag)
         if "exc" in snap:
             if e[0] == "ok": bad.append("%s: raised %s (%s)" % (tag, snap["exc"], snap.get("msg", "")))
             continue
@@ -617,10 +660,10 @@ def _pred_bv(case, out):
         if ne is not None:
             if e[0] == "either": ne.taxa = ne.grp = "undef"
             nb = len(bad)
-            _check_state(tag, ne, snap, t, False, strict, bad)
+            _check_state(tag, ne, snap, t, False, bad)
             failed = len(bad) > nb
         else: failed = True
-        if failed or e[0] == "either" or op["op"] in INPLACE + ("concat",):
+        if failed or e[0] == "either":
             # resynchronise on the implementation's own state so that later steps are judged on their own
             try:
                 rows = [[_fr(h) for h in r] for r in snap["unscale"]]
@@ -705,23 +748,8 @@ def _pred_scaled(case, out):
         bad.append("infinite value produced")
     return bad
 
-_KNOWN_OPS = {"append": "C15-inplace-not-restandardised", "incorp": "C15-inplace-not-restandardised", "remove": "C15-inplace-not-restandardised",
-              "concat": "C15-concat-raw-lost"}
 def _clause_id(cl):
     if "[const-rounding]" in cl: return "C15-constant-rounding"
-    if "[tmean-nan]" in cl: return "C15-tmean-ignores-nan"
-    if " op=" in cl:
-        nm = cl.split(" op=")[1].split(":")[0]
-        # only value-level consequences of the missing re-standardisation belong to the findings: never labels, shapes,
-        # NaN patterns, accepted bad indices or exceptions (except the subclasses' constructor TypeError in concat_taxa)
-        if "missing-value pattern" in cl and nm not in ("append", "incorp"): return None      # a NaN location/scale of self swallows appended values
-        for k in ("taxa labels", "taxa groups", "trait labels", "result class", "shape ", "invalid index", "modified the matrix",
-                  "shared with", "infinite", "succeeded although", "out of range", "first missing entry"):
-            if k in cl: return None
-        if ": raised " in cl and not (nm == "concat" and "raised TypeError" in cl and "required positional argument" in cl): return None
-        if nm == "remove" and ("unscale() =" in cl or "tmax(" in cl or "tmin(" in cl or "trange(" in cl or "tstd(" in cl or "tvar(" in cl or "raw extremum" in cl):
-            return None                                             # remove_taxa keeps the raw values: only location/centring is stale
-        return _KNOWN_OPS.get(nm)
     return None
 
 def pred(case, out):
@@ -735,41 +763,10 @@ def pred(case, out):
     seen.sort(key=lambda c: _clause_id(c) is not None)          # unexplained clauses first
     return seen[:10]
 
-def _defect_consistent(case, out, k):
-    """step k is an in-place / concat operation: does the implementation show exactly the documented defective behaviour
-    (stored values edited as they are, location/scale untouched; concat: stored values glued, location 0, scale 1;
-    subclasses: TypeError from the constructor)?  Anything else is not the known finding."""
-    op = case["ops"][k - 1]; cur = out["steps"][k]; t = case["t"]
-    prev = None
-    for s in reversed(out["steps"][:k]):
-        if "exc" not in s: prev = s; break
-    if prev is None: return False
-    nm = op["op"]
-    def hxrow(r): return [_hx(float("nan") if v is None else v) for v in r]
-    if nm == "concat":
-        if case["cls"] != "B":
-            return cur.get("exc") == "TypeError" and "required positional argument" in cur.get("msg", "")
-        if "exc" in cur or "oparams" not in cur: return False
-        mats = [q["mat"] for q in cur["oparams"]]
-        mats.insert(op["self_pos"], prev["mat"])
-        want = [r for m in mats for r in m]
-        return cur["mat"] == want and cur["loc"] == [_hx(0.0)] * t and cur["scale"] == [_hx(1.0)] * t
-    if "exc" in cur: return False
-    if cur["loc"] != prev["loc"] or cur["scale"] != prev["scale"]: return False
-    if nm == "remove": want = _l_delete(prev["mat"], op["obj"])
-    else:
-        vals = cur["vparams"]["mat"] if op["as"] != "nd" else [hxrow(r) for r in op["vals"]]
-        want = prev["mat"] + vals if nm == "append" else _l_insert(prev["mat"], op["obj"], vals)
-    return want is not None and cur["mat"] == want
-
 def classify(case, out, clauses):
     if not clauses or case["kind"] != "bv": return None
     ids = [_clause_id(c) for c in clauses]
     if any(i is None for i in ids): return None
-    for c in clauses:
-        if " op=" in c and _clause_id(c) in _KNOWN_OPS.values():
-            k = int(c.split("step ")[1].split(" ")[0])
-            if not _defect_consistent(case, out, k): return None
     return ids[0]
 
 def nontrivial(case, out):
@@ -794,7 +791,7 @@ def describe(case, out):
             "nops": len(case["ops"]), "nan": any(v is None for r in case["raw"] for v in r),
             "const_col": any(len(set(c)) == 1 for c in cols), "offset": any(v is not None and abs(v) > 2 ** 19 for r in case["raw"] for v in r),
             "labels": ("t" if case["taxa"] is not None else "-") + ("g" if case["grp"] is not None else "-"), "errors": min(nerr, 2),
-            "defect_op": next((o["op"] for o in case["ops"] if o["op"] in _KNOWN_OPS), "none")}
+            "direct": bool(case.get("direct")), "inplace_or_concat": "+".join(sorted({o["op"] for o in case["ops"] if o["op"] in INPLACE + ("concat",)})) or "none"}
 
 def shrink(case, fails0):
     """drop operations from the end, then single operations, while the case still fails for a reason that is not a known finding"""
@@ -854,7 +851,8 @@ def _opd(op, rec, t, cls):
 def _emit_bv(case, out):
     t = case["t"]; cls = case["cls"]; steps = out["steps"]
     r0 = "(mkraw %s %s %s %s)" % (_colsf(case["raw"], t), E.nat(len(case["raw"])), _lab(case["taxa"]), _lab(case["grp"]))
-    if "exc" in steps[0]: return "(case_check %s [] ObsErr [])" % r0
+    d = case.get("direct")
+    if "exc" in steps[0]: return "false" if d else "(case_check %s [] ObsErr [])" % r0
     items = []
     ncur = steps[0]["shape"][0]
     for op, rec in zip(case["ops"], steps[1:]):
@@ -873,11 +871,16 @@ def _emit_bv(case, out):
             if "oparams" not in rec: raise ValueError("concat operands could not be built")
             ps = ["(mkpart %s %s %s %s %s)" % (_colsf(q["raw"], t), E.nat(len(q["raw"])), _prm(pp["loc"], pp["scale"]), _lab(q["taxa"]), _lab(q["grp"]))
                   for q, pp in zip(op["others"], rec["oparams"])]
-            base = cls == "B" and all((q["cls"], cls) in SUBCLASS for q in op["others"])
-            o = "(OConcat %s %s %s)" % (E.b(base), E.lst(ps[:op["self_pos"]], str), E.lst(ps[op["self_pos"]:], str))
+            all_inst = all((q["cls"], cls) in SUBCLASS for q in op["others"])
+            o = "(OConcat %s %s %s)" % (E.b(all_inst), E.lst(ps[:op["self_pos"]], str), E.lst(ps[op["self_pos"]:], str))
         # a failing step has no parameters to give: dummies of the right length, so that the model can only fail for the source's reasons
         prm = E.lst(["(None, None)"] * t, str) if "exc" in rec else _prm(rec["loc"], rec["scale"])
         items.append("(%s,\n    %s,\n    %s)" % (o, prm, _obs(rec, t)))
+    if d:
+        cols = _T(case["raw"], t)
+        b0 = "(mkbv %s %s %s %s)" % (E.lst(list(range(t)), lambda j: "(mkcol %s %s %s)" % (E.lst(cols[j], _oq), _oq(d["loc"][j]), _oq(d["sc"][j]))),
+                                      E.nat(len(case["raw"])), _lab(case["taxa"]), _lab(case["grp"]))
+        return "(case_check_direct %s\n  %s\n  [%s])" % (b0, _obs(steps[0], t), ";\n   ".join(items))
     return "(case_check %s\n  %s\n  %s\n  [%s])" % (r0, _prm(steps[0]["loc"], steps[0]["scale"]), _obs(steps[0], t), ";\n   ".join(items))
 
 def _emit_scaled(case, out):
